@@ -117,6 +117,33 @@ CHECKS = {
         "technique": "property-based testing (rapid), stateful history with writes vs reference model of the store + reference semantics",
         "assumptions": ["ListUsers has no cache path and is covered by C06"],
     },
+    "C16": {
+        "runs": [_r("TestC16", 300, 15000, qt=1500, tt=5000)],
+        "rule": "three stores share one model with the SAME model id (planted through the datastore) and the same type/relation/object/user names but hold "
+                "different generated tuple sets; a fresh server with every cache on (engine drawn); the same 3-8 Check requests, a ListObjects and a "
+                "ListUsers request are issued against all stores in drawn interleavings; Read and ReadChanges per store; DeleteStore of a drawn store at "
+                "the end. Oracle: every answer matches the reference semantics of its own store; Read/ReadChanges show exactly the own tuples; the deleted "
+                "store disappears from GetStore/ListStores while the others answer as before. Non-trivial: some request has different reference answers in "
+                "two stores and a cache hit occurred. Distinct: hash of the case.",
+        "level_text": "exploration of interleaved multi-store histories with all caches enabled against per-store reference models",
+        "technique": "property-based testing (rapid), per-store reference model + reference semantics, counting cache wrapper",
+        "assumptions": ["equal model ids in several stores are created through the datastore interface (the API mints unique ids)",
+                        "memory datastore (sqlite isolation is covered by C13/C31 store-id sharing)"],
+    },
+    "C20": {
+        "runs": [_r("TestC20", 300, 10000, race=True, qt=1800, tt=7000)],
+        "rule": "case = model family (recursive userset / recursive TTU / mutually recursive types under an exclusion), chain length 3-40 optionally closed "
+                "into a cycle, fan-out 0-300, Check engine (default/weighted), ListObjects engine (classic/weighted/pipeline), deadline 2-300 ms, caches on in "
+                "1/4 of the cases, and 2-6 calls over Check, BatchCheck, ListObjects, StreamedListObjects, ListUsers, Expand, half of them cancelled by the "
+                "client at the n-th (1-40) datastore read of the call (deterministic trigger in a datastore wrapper). Oracle: every call returns within "
+                "deadline + 5 s (1-5 s over: inconclusive); after Server.Close the number of goroutines with openfga frames is back at the pre-case baseline "
+                "within 6 s; every datastore iterator opened was stopped. Non-trivial: a cancellation or deadline landed during a call. Distinct: hash of the case.",
+        "level_text": "exploration of long-cycle / large-fan-out worlds with short deadlines and read-triggered client cancellation; goroutine census and iterator "
+                      "accounting after every case; real scheduler (-race in thorough)",
+        "technique": "property-based testing (rapid), liveness-by-timeout + resource census oracle with deterministic cancellation triggers",
+        "assumptions": ["a time budget hit between deadline+1s and deadline+5s is inconclusive, beyond that a violation",
+                        "goroutine census counts stacks with github.com/openfga/openfga frames; process-wide servers form the baseline"],
+    },
     "C05": {
         "runs": [_r("TestC05", 3000, 160000)],
         "rule": "rapid draws a world (generator G) and 2-6 ListObjects calls: engine in {classic reverse expansion, its weighted-graph "
